@@ -10,13 +10,19 @@ VERIF_DIR = os.path.dirname(os.path.dirname(os.path.abspath(__file__)))
 REPO_SRC = os.environ.get("MDPSIM_REPO_SRC", "/repo/src")
 
 
+def _shm() -> str:
+    return "/dev/shm" if os.path.isdir("/dev/shm") and os.access("/dev/shm", os.W_OK) else tempfile.gettempdir()
+
+
 def scratch_base() -> str:
-    base = "/dev/shm" if os.path.isdir("/dev/shm") and os.access("/dev/shm", os.W_OK) else tempfile.gettempdir()
-    return base
+    """Where run directories live: one tree per check invocation (removed by it at the end)."""
+    return os.environ.get("MDPSIM_SCRATCH_BASE") or _shm()
 
 
 def cache_dir() -> str:
-    return os.path.join(scratch_base(), "mdpsim-xla-cache")
+    # persistent XLA compilation cache, shared by the workers of one check invocation (a plan's
+    # control run and lifetimes compile identical HLO) and removed with its scratch tree
+    return os.path.join(scratch_base(), "xla-cache")
 
 
 def child_env(devices: int = 1, x64_first: bool = True) -> dict:
